@@ -241,6 +241,9 @@ def faults(acc, frames):
     for fi, f in enumerate(frames):
         for op, g in grammar_faults(f):
             if not ref_check_all(g):
+                # the variant happens to be well-formed (e.g. a tag number of 5000 digits): totality and progress still apply
+                judge_decode(acc, g, op + "/well-formed", {"frame": fi})
+                judge_decode(acc, g + valid, op + "/well-formed/+valid")
                 continue
             judge_decode(acc, g, op, {"frame": fi})
             judge_decode(acc, g + valid, op + "/+valid")
